@@ -17,7 +17,16 @@ export GOFLAGS=-mod=mod GOPROXY=off GOSUMDB=off GOTOOLCHAIN=local; unset GOWORK
 export PATH="$(go1.26 env GOROOT)/bin:$PATH"
 applied=0; flagged=0; missed=0; skipped=0
 shopt -s nullglob
-for p in "$here"/mutants/$id/*.diff "$here"/seeded/${id}[a-z]*/patch.diff; do
+# seeded changes are exercised by the check of their own property, unless seeded/<dir>/check_with names the
+# property whose check is the one that reports them (e.g. C04a is reported by C02's release/recheck rule)
+seeds=()
+for d in "$here"/seeded/*/; do
+  [ -f "$d/patch.diff" ] || continue
+  tgt=$(basename "$d" | grep -o '^C[0-9][0-9]')
+  [ -f "$d/check_with" ] && tgt=$(tr -d ' \n' < "$d/check_with")
+  [ "$tgt" = "$id" ] && seeds+=("${d}patch.diff")
+done
+for p in "$here"/mutants/$id/*.diff "${seeds[@]}"; do
   name=$(basename "$(dirname "$p")")/$(basename "$p")
   rm -rf "$scratch"; mkdir -p "$scratch/tree" "$scratch/ev"
   rsync -a --exclude .git "$repo"/ "$scratch/tree/"
